@@ -1,2 +1,14 @@
 import Heathcliff.Props.C04
-#print axioms HC.C04.placeholder
+#print axioms HC.C04.odd_mul_injective
+#print axioms HC.C04.galoisApply_spec
+#print axioms HC.C04.subst_eval
+#print axioms HC.C04.galoisTable_spec
+#print axioms HC.C04.galoisTable_exponent
+#print axioms HC.C04.eltFromStep_spec
+#print axioms HC.C04.eltFromStep_zero
+#print axioms HC.C04.three_order
+#print axioms HC.C04.step_inverse
+#print axioms HC.C04.step_add
+#print axioms HC.C04.three_pow_two_pow_pos
+#print axioms HC.C04.eltFromStep_refuses'
+#print axioms HC.C04.eltsAll_contains_le
